@@ -279,7 +279,7 @@ def gen_case(seed, tier):
     calls = []
     for i in range(ncalls):
         calls.append({'spec': rng.randrange(nspecs), 'scope': rng.randrange(len(scopes)),
-                      'target': f'c{i}x', 'api': rng.choice(['glom', 'glom', 'glom', 'glommer'])})
+                      'target': f'c{i}x', 'api': rng.choice(['glom', 'glom', 'glom', 'glommer', 'spec.glom'])})
     # group calls into ops: sequential singles or concurrent groups of 2-3
     ops = []
     i = 0
@@ -333,6 +333,7 @@ def run_case(case, gen_rng=None):
     specs = [B.spec(['shared', i]) for i in range(len(case['shared']))]
     scope_maps = [{kk: B.value(vv) for kk, vv in sc} for sc in case['scopes']]
     glommer = G.Glommer()
+    spec_wrappers = [G.Spec(sp) for sp in specs]     # re-used Spec objects for the Spec.glom() entry point
     trace = []
 
     def st(n_, x=1):
@@ -344,9 +345,13 @@ def run_case(case, gen_rng=None):
         if call['api'] == 'glommer':
             return lambda: glommer.glom(call['target'], spec)
         sm = scope_maps[call['scope']]
+        if call['api'] == 'spec.glom':
+            w = spec_wrappers[call['spec']]
+            return lambda: w.glom(call['target'], scope=sm)
         return lambda: G.glom(call['target'], spec, scope=sm)
 
-    spec_snap0 = canon.snapshot(specs)
+    spec_holder = [specs, spec_wrappers]
+    spec_snap0 = canon.snapshot(spec_holder)
     for op in case['ops']:
         cis = op['calls']
         snaps = canon.snapshot(scope_maps)
@@ -389,7 +394,7 @@ def run_case(case, gen_rng=None):
             if exp != obs:
                 viols.append({'clause': 'lexical-model', 'sig': 'lexical-model/' + _classify(exp, obs),
                               'expected': exp, 'observed': obs, 'call': ci})
-    spec_snap1 = canon.snapshot(specs)
+    spec_snap1 = canon.snapshot(spec_holder)
     if not canon.snap_equal(spec_snap0, spec_snap1):
         viols.append({'clause': 'spec-unchanged', 'sig': 'spec-unchanged',
                       'expected': 'spec object graph (incl. Vars defaults) unchanged by evaluation',
